@@ -10,6 +10,16 @@ def run(tier):
     bdir = common.build("plain")
     fams = [("altor", 3), ("subif", 3), ("fmt", 3)] if tier == "quick" else [("altor", 3), ("subif", 3), ("fmt", 3), ("closure", 3), ("names", 3)]
     total = 0
+    # mechanism layer (tla/Engine.tla) refines the meaning layer, exhaustively
+    mc = [("altor", 3)] if tier == "quick" else [("altor", 3), ("subif", 3), ("fmt", 3)]
+    for fam, w in mc:
+        r = engine.model_check(vd, fam, w)
+        if r.violated:
+            # the design (the model of the engine) breaks the property: report with TLC's trace
+            vd.observe("model:" + fam + ":" + r.violated,
+                       {"tlc_invariant": r.violated, "family": fam, "output": r.out[-6000:]})
+        vd.notes.setdefault("model_checked", {})[fam] = {"weight": w, "states": r.distinct,
+                                                         "transitions": r.states, "depth": r.depth}
     for fam, w in fams:
         vecs, st = engine.generate(fam, w, 16, wd)
         total += len(vecs)
@@ -19,7 +29,7 @@ def run(tier):
                      "family, each run on a two-stack stream and on a single stack; expected "
                      "results from the meaning layer tla/Zw.tla (Den); non-trivial = distinct "
                      "program texts with >=1 expected result or diagnostic containing a stateful "
-                     "construct", exhaustive=True, extra={"families": vd.notes.get("families")})
+                     "construct", exhaustive=True, extra={"families": vd.notes.get("families"), "model_checked": vd.notes.get("model_checked")})
 
 def replay(path):
     rep = json.load(open(path))["replay"]
